@@ -1285,3 +1285,207 @@ class RoundTripEnumeration(NativeCheck):
 
 
 NATIVE = globals().get("NATIVE", []) + [RoundTripEnumeration]
+
+
+# ---------------------------------------------------------------- delta_has_effect_tsb (C20_r6_3)
+class WildView(Obj):
+    """a value the contract says nothing about: every query on it has an arbitrary answer (bool / size / another such value)"""
+    cls = "ValueView(arbitrary)"
+
+    def __init__(self, name="value", idx=None):
+        Obj.__init__(self, name=name)
+        self.idx = idx
+
+    def member(self, ctx, name, node):
+        return WildView(name=name)
+
+    def op(self, I, op, rest, n, a0):
+        if op in ("==", "!=", "<", ">", "<=", ">="):
+            return I.ctx.fresh("arbitrary_compare", "bool")
+        if op == "[]":
+            return WildView(name="element")
+        return NotImplemented
+
+
+class EffFieldSchema(Obj):
+    cls = "TSValueTypeMetaData(field)"
+
+    def __init__(self, k, idx):
+        Obj.__init__(self, name="field_schema")
+        self.k, self.idx = k, idx
+
+    def member(self, ctx, name, node):
+        if name == "kind":
+            kd = self.k.fkind[self.idx]
+            ctx.assume(kd != self.k.KINDS["TSB"])   # verified configuration: no bundle nested in the bundle (ground, so path feasibility sees it)
+            return kd
+        return WildView(name=name)
+
+
+class EffFieldEntry(Obj):
+    cls = "TSFieldMetaData"
+
+    def __init__(self, k, idx):
+        Obj.__init__(self, name="field_entry")
+        self.k, self.idx = k, idx
+
+    def member(self, ctx, name, node):
+        if name == "type":
+            return Ptr(EffFieldSchema(self.k, self.idx), self.k.ftype_null[self.idx])
+        return WildView(name=name)
+
+
+class EffFields(Obj):
+    cls = "fields"
+
+    def __init__(self, k):
+        Obj.__init__(self, name="schema_fields")
+        self.k = k
+
+    def op(self, I, op, rest, n, a0):
+        if op == "[]":
+            return EffFieldEntry(self.k, I.ctx.rv(rest[0]))
+        return NotImplemented
+
+    def index(self, I, idx, n):
+        return EffFieldEntry(self.k, idx)
+
+
+class EffSchema(Obj):
+    cls = "TSValueTypeMetaData"
+
+    def __init__(self, k):
+        Obj.__init__(self, name="out_schema")
+        self.k = k
+
+    def m_fields(self, I, args, n):
+        return EffFields(self.k)
+
+
+class EffOps(Obj):
+    cls = "TSDataOps(child)"
+
+
+class EffImpl:
+    def __init__(self, k):
+        self.k = k
+
+    def call(self, I, args, n):
+        ctx = I.ctx
+        child, d = ctx.rv(args[0]), ctx.rv(args[1])
+        if not isinstance(child, EffChild) or getattr(d, "idx", None) is None:
+            raise Gap("delta_has_effect_impl(%r, %r)" % (child, d))
+        ctx.oblige("callee-pre.field's-own-rule-asked-with-the-field's-own-delta", child.idx == d.idx, kind="callee-pre")
+        g = self.k.g
+        ctx.write(Loc((g.oid, "asked")), z3.Store(ctx.store[(g.oid, "asked")], child.idx, True))
+        return self.k.E[child.idx]
+
+
+class EffChild(Obj):
+    cls = "TSOutputView(child)"
+
+    def __init__(self, k, idx):
+        Obj.__init__(self, name="child_out")
+        self.k, self.idx = k, idx
+
+    def m_data_view(self, I, args, n):
+        dv = Obj("TSDataView", "child_data")
+        ops = EffOps(name="child_ops")
+        I.ctx.store[(ops.oid, "delta_has_effect_impl")] = EffImpl(self.k)
+        dv.m_ops = lambda I2, a, n2: ops
+        return dv
+
+
+class DeltaHasEffectTsb(DeltaKernel):
+    name = "ts_delta.cpp:delta_has_effect_tsb"
+    fn_name = "delta_has_effect_tsb"
+    filter = "delta_has_effect_tsb"
+    bounded_fallback = 2
+    title = ("delta_has_effect_tsb: a bundle delta has an effect exactly when SOME field's own rule says so - every field is asked "
+             "(an empty collection delta validates a fresh field: only the field's rule can know)")
+
+    def setup(self, I):
+        ctx = I.ctx
+        g = Obj("ghost", "eg")
+        self.g = g
+        ctx.store[(g.oid, "asked")] = z3.K(I_, z3.BoolVal(False))
+        self.has_delta = z3.Bool("delta_has_value")
+        self.n = z3.Int("n_fields")
+        ctx.assume(self.n >= 0)
+        self.E = z3.Array("field_rule_says_effect", I_, B_)
+        self.fkind = z3.Array("field_kind", I_, I_)
+        self.ftype_null = z3.Array("field_type_null", I_, B_)
+        self.schema_null = z3.Bool("out_schema_null")
+        k = self
+        qf = z3.Int("qf")
+        ctx.assume(z3.ForAll([qf], self.fkind[qf] != self.KINDS["TSB"]))      # verified configuration: no bundle nested in the bundle
+        out = Obj("TSOutputView", "out")
+        out.m_schema = lambda I2, a, n: Ptr(EffSchema(k), k.schema_null)
+
+        class BundleOut(Obj):
+            def m_at(self, I2, a, n):
+                return EffChild(k, I2.ctx.rv(a[0]))
+        out.m_as_bundle = lambda I2, a, n: BundleOut("TSBOutputView", "bundle_out")
+        delta = Obj("ValueView", "delta")
+        delta.m_has_value = lambda I2, a, n: k.has_delta
+
+        class BundleDelta(Obj):
+            def m_size(self, I2, a, n):
+                return k.n
+
+            def m_at(self, I2, a, n):
+                return WildView(name="field_delta", idx=I2.ctx.rv(a[0]))
+        delta.m_as_bundle = lambda I2, a, n: BundleDelta("BundleView", "delta_bundle")
+        return None, {"out": out, "delta": delta}
+
+    KINDS = {"TS": 1, "TSS": 2, "TSD": 3, "TSL": 4, "TSB": 5, "TSW": 6, "REF": 7, "SIGNAL": 8}
+
+    def enum_const(self, I, ref):
+        nm = ref.get("name")
+        if nm in self.KINDS:
+            return z3.IntVal(self.KINDS[nm])
+        return z3.IntVal(50 + (sum(map(ord, nm or "")) % 40))
+
+    def global_var(self, I, ref, node):
+        nm = ref.get("name", "")
+        if nm.startswith(("tss_delta_", "tsd_delta_", "tsd_authored")):
+            return z3.Int(nm)
+        return None
+
+    def bound_sizes(self, I, n):
+        I.ctx.assume(self.n <= n)
+
+    def method_handler(self, obj, name, node):
+        if isinstance(obj, WildView) and getattr(obj, "m_" + name, None) is None:
+            from cxxvc.interp import type_of, is_bool_type, is_int_type
+
+            def anything(I, o, a, n):
+                qt = type_of(n)
+                if is_bool_type(qt):
+                    return I.ctx.fresh("arbitrary_" + name, "bool")
+                if is_int_type(qt):
+                    v = I.ctx.fresh("arbitrary_" + name)
+                    I.ctx.assume(v >= 0)
+                    return v
+                return WildView(name=name)
+            return anything
+        return Kernel.method_handler(self, obj, name, node)
+
+    def inv(self, I, ctx):
+        i = self.local(I, "index")
+        yield "index-range", z3.And(i >= 0, i <= self.n)
+        yield "no-field-so-far-has-an-effect,each-was-asked", z3.ForAll([qr], z3.Implies(z3.And(qr >= 0, qr < i), z3.And(
+            z3.Not(self.E[qr]), ctx.store[(self.g.oid, "asked")][qr])))
+
+    @property
+    def loops(self):
+        return {0: LoopSpec(self.inv, lambda I, ctx: [Loc((self.g.oid, "asked"))])}
+
+    def post(self, I, ret):
+        some = z3.Exists([qr], z3.And(qr >= 0, qr < self.n, self.E[qr]))
+        I.ctx.oblige("ensures.effect<=>the-delta-is-present-and-some-field's-own-rule-reports-an-effect[C20 replaying a recorded bundle tick "
+                     "reproduces it: a tick whose only content is an empty collection delta validating a fresh field is not dropped]",
+                     ret == z3.And(self.has_delta, some), kind="post-normal")
+
+
+KERNELS += [DeltaHasEffectTsb]
